@@ -27,11 +27,17 @@ Proof.
   destruct (N.ltb_spec (q + 4 - 30 + 1) 256); [intros _; lia|discriminate].
 Qed.
 
+Lemma max_xtors_le types : xtors_le (max_xtors types) types = true.
+Proof.
+  unfold xtors_le. apply forallb_forall. intros d Hd. apply N.leb_le.
+  induction types as [|d0 r IH]; [destruct Hd|]. cbn [max_xtors fold_right]. destruct Hd as [<-|Hd]; [lia|].
+  specialize (IH Hd). fold (max_xtors r). lia.
+Qed.
+
 Section Prog.
 Variable p : prog.
 Hypothesis PN : plain_names p = true.
 Hypothesis PT : plain_types p = true.
-Hypothesis XS : xtors_le A64_XTORS_MAX (ptypes p) = true.
 
 Lemma a64_translate_W defs lc code lc' :
   forallb (fun d => lin_check (sigs_of p) (dctx d) (dbody d) && stmt_immP any_lit (dbody d)) defs = true ->
@@ -39,7 +45,7 @@ Lemma a64_translate_W defs lc code lc' :
   translate a64_backend (ptypes p) defs lc = Ok (code, lc') -> W code.
 Proof.
   intros G SUB H.
-  apply (translate_QLP a64_backend a64_backend_ok (sigs_of p) A64_SUBST_MAX A64_XTORS_MAX any_lit temp_enc W X86WfAll.Lp W_nil W_app)
+  apply (translate_QLP a64_backend a64_backend_ok (sigs_of p) A64_SUBST_MAX (max_xtors (ptypes p)) any_lit temp_enc W X86WfAll.Lp W_nil W_app)
     with (defs := defs) (lc := lc) (lc' := lc');
     cbn [a64_backend a64_backend_with b_temporary_from_position b_temp b_return1 b_label b_mark b_jump b_jump_label b_jump_label_fixed
          b_jcc2 b_jcc1 b_load_immediate b_load_label b_add_and_jump b_arith b_mov b_print b_erase b_share_n b_store b_load
@@ -57,7 +63,7 @@ Proof.
   - intros t i T _. apply W_load_immediate; exact T.
   - intros t k T K. apply W_load_immediate; exact T.
   - intros t l T HL. apply W_load_label; [exact T|rewrite hash_same; exact HL].
-  - exact W_add_and_jump.
+  - intros t k T _. apply W_add_and_jump; exact T.
   - intros o t a b T A Bb _ _. apply W_arith; auto.
   - intros a A. apply W_arith; [exact reg_TEMP|exact reg_TEMP|exact A].
   - exact W_mov.
@@ -72,10 +78,20 @@ Proof.
   - reflexivity.
   - exact (X86WfAll.L_def_p p PN).
   - exact (X86WfAll.L_type_p p PT).
+  - apply max_xtors_le.
   - exact tfp_cap.
   - intros d Hd. destruct (lookup_label_def p d (SUB d Hd)) as [ps E]. exact (X86WfAll.L_def_p p PN _ _ E).
 Qed.
 End Prog.
+
+(* no condition on literals *)
+Lemma stmt_imm_any : forall s, stmt_immP any_lit s = true.
+Proof.
+  induction s using stmt_ind2; cbn [stmt_immP any_lit andb]; auto.
+  - induction H as [|[[x cx] b] r Hb Hr IHr]; [reflexivity|]. unfold cl_body in Hb; cbn [snd] in Hb. rewrite Hb. exact IHr.
+  - rewrite IHs, andb_true_r. induction H as [|[[x cx] b] r Hb Hr IHr]; [reflexivity|]. unfold cl_body in Hb; cbn [snd] in Hb. rewrite Hb. exact IHr.
+  - rewrite IHs1, IHs2. reflexivity.
+Qed.
 
 (* ---------- from the facts to asm_wf ---------- *)
 Lemma mem_str_In x l : mem_str x l = true <-> In x l.
@@ -171,20 +187,19 @@ Qed.
 
 Theorem a64_compile_asm_wf p lc cs n lc' :
   labels_guard p = true -> lin_check_prog p = true ->
-  plain_names p = true -> plain_types p = true -> imm_guard_a64 p = true -> reach_guard_a64 p = true ->
+  plain_names p = true -> plain_types p = true -> reach_guard_a64 p = true ->
   a64_compile p lc = Ok (cs, n, lc') -> asm_wf cs = None.
 Proof.
-  intros G1 LIN PN PT IG RG H. pose proof (X86WfCor.lin_check_calls_guard p LIN) as G2.
+  intros G1 LIN PN PT RG H. pose proof (X86WfCor.lin_check_calls_guard p LIN) as G2.
   destruct (a64_routine_labels p lc cs n lc' G1 G2 H) as (ND & RF & _).
   pose proof (a64_compile_fine_size p lc cs n lc' (lin_check_prog_sub_wf p LIN) H) as SZ.
   unfold a64_compile, a64_compile_with, into_aarch64_routine in H. rstep H. destruct x as [[is n0] l0]. rinv H. inversion H; subst. clear H.
   match goal with E0 : rbind _ _ = Ok _ |- _ => rename E0 into ES end. rstep ES. rename E0 into E1.
   match type of ES with Ok ?t = Ok ?v => assert (EV : v = t) by congruence; subst v; clear ES end.
-  unfold imm_guard_a64, imm_guardP in IG. apply andb_true_iff in IG as [IG XS].
   assert (GD : forallb (fun d => lin_check (sigs_of p) (dctx d) (dbody d) && stmt_immP any_lit (dbody d)) (pdefs p) = true).
-  { apply forallb_forall. intros d Hd. unfold lin_check_prog in LIN. rewrite forallb_forall in LIN, IG.
-    specialize (LIN d Hd). specialize (IG d Hd). unfold lin_check_def in LIN. rewrite LIN, IG. reflexivity. }
-  clear LIN IG.
+  { apply forallb_forall. intros d Hd. unfold lin_check_prog in LIN. rewrite forallb_forall in LIN.
+    specialize (LIN d Hd). unfold lin_check_def in LIN. rewrite LIN, stmt_imm_any. reflexivity. }
+  clear LIN.
   pose proof (X86WfAll.compile_translate _ _ _ _ _ _ E) as E0.
   unfold labels_guard in G1.
   destruct (translate_unique a64_backend all_defs referenced a64_labels_ok _ _ _ _ _ G1 E0) as (_ & _ & I).
@@ -198,7 +213,7 @@ Proof.
   apply asm_wf_intro; [|exact ND|exact RF|apply NP; [exact X86WfAll.print_not_pr|discriminate|discriminate]
                                           |apply NP; [exact X86WfAll.println_not_pr|discriminate|discriminate]|].
   - apply W_app; [exact (W_setup _ _ E1)|]. apply W_app; [|exact W_cleanup].
-    eapply (a64_translate_W p PN PT XS (pdefs p)); [exact GD|auto|exact E0].
+    eapply (a64_translate_W p PN PT (pdefs p)); [exact GD|auto|exact E0].
   - unfold reach_guard_a64 in RG. apply N.ltb_lt in RG. lia.
 Qed.
 
